@@ -1,5 +1,5 @@
 """Texts for MANIFEST.json."""
-HOOK_COMMITS = ["4db5999", "516c80b", "6e40793", "cac4ccd", "7b287ff"]
+HOOK_COMMITS = ["4db5999", "516c80b", "6e40793", "cac4ccd", "7b287ff", "9e4e37e"]
 
 PENDING = "check not built yet in this session (claimed by DESIGN.md; will be claimed when its theorems and correspondence family are in place)"
 NOT_APPLICABLE = {f"C{i:02d}": PENDING for i in range(1, 21)}
